@@ -9,7 +9,7 @@ for d in benign/*.diff; do
   test -z "$(git -C /repo status --porcelain)" || { echo "/repo not clean"; exit 2; }
   git -C /repo apply /verif/$d || { echo "$n: patch does not apply"; continue; }
   for p in $checks; do
-    out=$(./vcheck check $p --tier quick 2>&1); rc=$?
+    out=$(timeout 1500 ./vcheck check $p --tier quick 2>&1); rc=$?
     echo "$n $p rc=$rc $(echo "$out" | grep -E '^violation|harness' | head -2 | cut -c1-300)"
   done
   git -C /repo checkout -- .
